@@ -80,6 +80,38 @@ def alphabet(item, rng, ver):
     return reqs
 
 
+def real_process_initial(run, it):
+    """The command line: `python -m kconfserver --version N` must start the conversation in protocol version N
+    (the in-process runs hand the version to run_server() directly and never pass through main())."""
+    import subprocess
+    import sys
+
+    from ..common import REPO
+
+    d = run.sub("srv_cli")
+    os.makedirs(d, exist_ok=True)
+    text = ktree.render(it["prog"])
+    kpath = kc.write_text(os.path.join(d, "Kconfig"), text)
+    sdk = kc.write_text(os.path.join(d, "sdkconfig"), "")
+    env = dict(os.environ, PYTHONPATH=REPO)
+    for ver in (1, 2, 3):
+        inproc, _, exc = servercheck.run_server_lines(kpath, sdk, ver, [])
+        pr = subprocess.run([sys.executable, "-m", "kconfserver", "--kconfig", kpath, "--config", sdk, "--version", str(ver)], input="", capture_output=True, text=True, env=env, cwd=d)
+        lines = pr.stdout.splitlines()
+        try:
+            got = json.loads(lines[0]) if lines else None
+            want = json.loads(inproc[0])
+        except ValueError:
+            got, want = None, {}
+        if exc is not None or pr.returncode != 0 or got is None or sorted(got) != sorted(want) or got.get("version") != ver:
+            run.report(
+                "python -m kconfserver --version %d: the initial message is %s, run_server(default_version=%d) gives %s"
+                % (ver, "missing" if got is None else "version %s with keys %s" % (got.get("version"), sorted(got)), ver, "version %s with keys %s" % (want.get("version"), sorted(want))),
+                {"kconfig": text, "version": ver, "stdout": lines[:1], "stderr": pr.stderr[-300:]},
+                {"R-initial", "command-line-version"},
+            )
+
+
 def main(run):
     tier = run.tier
     rng = random.Random(run.seed)
@@ -183,6 +215,7 @@ def main(run):
         # v1 replies carry null for invisible values and no visibility channel: compare values only on visible options
         progs.append({"prog": prog, "ord": it["ord"], "files": [histfile(f, info) for f in files] + [[]], "menus": menus, "traces": traces, "text": text})
     run.add("evaluations", total)
+    real_process_initial(run, items[0])
     bad = set()
     design = {}
     for b in range(0, len(progs), 40):
